@@ -1,6 +1,5 @@
 CONSTANTS NReq = 1  NConn = 1  Shapes <- ShapesSingle  Pools = {0, 1}  HTs = {FALSE, TRUE}
   TimerAfterDecode = TRUE  KF_BlankTimeoutReply = FALSE  KF_PacketTypeSetLate = FALSE  KF_TupDropsResult = FALSE
-  Filts = {"none", "legacy", "prepost", "mw", "all"}  VG_PingThroughFilter = FALSE
+  Filts = {"none", "legacy", "prepost", "mw", "all"}  VG_PingThroughFilter = TRUE
 SPECIFICATION Spec
-INVARIANTS AtMostOnce NoStrayReply SafeSoFar AtQuiescence ExecutedAtMostOnce
-PROPERTIES Terminates
+INVARIANTS ResultConveyed
